@@ -13,6 +13,31 @@ CLAIMS = {
          'context managers (single thread); _log/_prof no-ops; bulk callbacks '
          '(_USE_BULK_CB, off by default) not covered; at most 2 tasks per bulk.',
     design='4/C06'),
+ 'C13': dict(
+    text='Bounded symbolic execution of the real TaskManager._pilot_state_cb with '
+         'Task._update / Task.as_dict: tasks with symbolic pilot binding (none, '
+         'p0, p1) and symbolic state (all 18 states), pilots ending in symbolic '
+         'order and final state; the solver-guided search exhausts the path tree '
+         'and the post-state of every task is compared with "FAILED naming the '
+         'pilot iff bound to an ended pilot and not final, unchanged otherwise".',
+    note='Trusted: CrossHair/z3 path exhaustion; TaskManager.advance replaced by a '
+         'recorder, Pilot facade by an object with uid/state; bound: 1 arbitrary task '
+         '+ 3 fixed bystanders (quick), 2 arbitrary tasks (thorough), 2 pilots.',
+    design='4/C13'),
+ 'C15': dict(
+    text='Bounded symbolic execution of the real Task.wait, Pilot.wait, '
+         'TaskManager.wait_tasks and PilotManager.wait_pilots against a fake clock: '
+         'requested-state argument (12 forms), state trajectory of the awaited '
+         'entities and the time-out (symbolic number of poll intervals) are solver '
+         'variables; a path that runs out of poll fuel after the awaited condition '
+         'became true is reported as "did not return"; returned values are compared '
+         'with the actual states.',
+    note='Trusted: CrossHair/z3 path exhaustion; time module of the module under '
+         'test replaced by a virtual clock (state changes only while the waiter '
+         'sleeps); 7 representative states per entity, trajectories of 2 (quick) / 3 '
+         '(thorough) states, at most 2 entities, time-out 1..4 polls; _terminate '
+         'never set.',
+    design='4/C15'),
 }
 
 NOT_YET = 'check not built yet in this session (see DESIGN.md section 4 for the plan)'
